@@ -97,6 +97,12 @@ def _programs(tier):
         progs.append({"sh": "sites", "s": list(combo)})
     for combo in (("fti", "fti2"), ("fti", "fti2", "create"), ("fti", "ftsub"), ("ftsub", "fti", "update"), ("fti2", "fix", "fti"), ("fti", "trim", "fti2", "fix")):
         progs.append({"sh": "sites", "s": list(combo)})
+    # several call sites on one source line; what an earlier session writes in front (non-ASCII text) shifts the columns of the later ones
+    line_sites = ("createuni", "fixuni", "fixl", "trim", "update", "updl", "trimin")
+    for k in (2, 3):
+        for combo in itertools.permutations(line_sites, k):
+            if ("createuni" in combo or "fixuni" in combo) and (k == 2 or tier != "quick" or combo[0] in ("createuni", "fixuni")):
+                progs.append({"sh": "oneline", "s": list(combo)})
     sites = ("create", "fix", "trim", "update", "trimin", "fixl", "updl")
     for k in (2, 3, 4):
         for combo in itertools.permutations(sites, k) if k == 2 else itertools.combinations(sites, k):
@@ -178,6 +184,10 @@ def source(p):
         body = ["_ok = {'k': %r%s} == snapshot({'k': [%s]%s})" % (obs, new_other, ", ".join(txt), old_other)]
     elif sh == "asserted":
         body = [ASSERTED[i] for i in p["s"]]
+    elif sh == "oneline":
+        st = {"createuni": "U == snapshot()", "fixuni": "U == snapshot('x')", "trim": "5 <= snapshot(9)", "update": "5 == snapshot(5+0)",
+              "trimin": "5 in snapshot([5, 6+0])", "fixl": "[5, 6] == snapshot([5+0])", "updl": "[5, 6] == snapshot([5, 6+0])"}
+        return pre + "U = '\xe4\xf6\u20ac\U0001f40d'\n\n\ndef test_0():\n    _ok = (" + ", ".join(st[k] for k in p["s"]) + ")\n"
     elif sh == "sites":
         st = {"create": "_ok = 5 == snapshot()", "fix": "_ok = 5 == snapshot(6)", "trim": "_ok = 5 <= snapshot(9)", "update": "_ok = 5 == snapshot(5+0)",
               "trimin": "_ok = 5 in snapshot([5, 6+0])", "fti": "_ok = 5 in snapshot([4])", "fti2": "_ok = 'b' in snapshot(['a'])",
